@@ -13,8 +13,7 @@ import (
 )
 
 var (
-	regFlags         = regexp.MustCompile(`flags=\(([^)]+)\)`)
-	regProfileHeader = regexp.MustCompile(` {\n`)
+	regFlags = regexp.MustCompile(`flags=\(([^)]+)\)`)
 )
 
 type Complain struct {
@@ -31,18 +30,42 @@ func init() {
 }
 
 func (b Complain) Apply(opt *Option, profile string) (string, error) {
-	flags := []string{}
-	matches := regFlags.FindStringSubmatch(profile)
-	if len(matches) != 0 {
-		flags = strings.Split(matches[1], ",")
+	return rewriteHeaders(profile, func(flags []string) ([]string, bool) {
 		if slices.Contains(flags, "complain") {
-			return profile, nil
+			return flags, false
+		}
+		return append(flags, "complain"), true
+	}), nil
+}
+
+// rewriteHeaders updates the flags of each block header (main profile, sub
+// profiles and hats) of a profile file. Each header is rewritten from its own
+// flags: update returns the new flags of a header and whether they changed.
+func rewriteHeaders(profile string, update func(flags []string) ([]string, bool)) string {
+	lines := strings.Split(profile, "\n")
+	for idx, line := range lines {
+		if !strings.HasSuffix(line, " {") {
+			continue
+		}
+		flags := []string{}
+		matches := regFlags.FindStringSubmatch(line)
+		if len(matches) != 0 {
+			for _, flag := range strings.Split(matches[1], ",") {
+				flags = append(flags, strings.TrimSpace(flag))
+			}
+		}
+		flags, changed := update(flags)
+		if !changed {
+			continue
+		}
+
+		// Remove the flags definition, then set the new flags
+		header := strings.TrimSuffix(regFlags.ReplaceAllLiteralString(line, ""), " {")
+		if len(flags) > 0 {
+			lines[idx] = header + " flags=(" + strings.Join(flags, ",") + ") {"
+		} else {
+			lines[idx] = header + "{"
 		}
 	}
-	flags = append(flags, "complain")
-	strFlags := " flags=(" + strings.Join(flags, ",") + ") {\n"
-
-	// Remove all flags definition, then set manifest' flags
-	profile = regFlags.ReplaceAllLiteralString(profile, "")
-	return regProfileHeader.ReplaceAllLiteralString(profile, strFlags), nil
+	return strings.Join(lines, "\n")
 }
